@@ -51,6 +51,7 @@ package hash_set
 //@ func (*nodePool).exist
 //@   props C20
 //@   nopanic
+//@   modifies nothing
 //@   requires wfNP(np) && -1 <= head && int(head) < len(np.array)
 //@   loop 1 invariant wfNP(np) && -1 <= index && int(index) < len(np.array)
 
